@@ -40,7 +40,13 @@ func histFamiliesW(c *CheckRun, wantFan bool, light bool) []histB {
 			out = append(out, every(fLongDeep(kindAlphaB, []int{mp + 1}, false), 2, c.Seed)...)
 			out = append(out, fNum(kindU8, 3)...)
 			for _, k := range numericAll {
-				out = append(out, fNum(k, 2)...) // every key type has its own codec arm and (for the kind) its own tree copy
+				// every key type has its own codec arm and (for the kind) its own tree copy; floats fork on
+				// NaN/Inf tests per key, so the heavy-probe checks take a single symbolic float key
+				if k == kindF32 || k == kindF64 {
+					out = append(out, fNum(k, 1)...)
+				} else {
+					out = append(out, fNum(k, 2)...)
+				}
 			}
 		} else {
 			out = append(out, fShort(kindAlphaB, 2, []int{0, 1, 2}, true)...)
